@@ -618,6 +618,12 @@ class CppFullGenerator(GeneratorBase):
                 raise GenerateError('{0} byte size unknown'.format(n.name))
             if isinstance(n, model.Struct):
                 occured = set()
+                preceding = set()
+                for m in n.members:
+                    if m.bound and m.bound not in preceding:
+                        raise GenerateError('Array {}.{} is bounded by member ({}) which is not defined before it'
+                                            .format(n.name, m.name, m.bound))
+                    preceding.add(m.name)
                 for m in n.members:
                     if m.bound:
                         if m.bound in occured:
